@@ -256,6 +256,27 @@ def _snapshot(cd, ids) -> list:
     return [nodes, sorted(edges)]
 
 
+def _plain_hints(c, by_name) -> dict:
+    """typing.get_type_hints in the class's own module; a name the module lacks (TYPE_CHECKING-only import, local class) is
+    supplied from the program's classes by its Python name, when only one class has that name"""
+    import typing
+    by_py: Dict[str, list] = {}
+    for obj in by_name.values():
+        by_py.setdefault(obj.__name__, [])
+        if obj not in by_py[obj.__name__]:
+            by_py[obj.__name__].append(obj)
+    extra: Dict[str, Any] = {}
+    for _ in range(50):
+        try:
+            return typing.get_type_hints(c, localns=extra or None)
+        except NameError as e:
+            cands = by_py.get(e.name, [])
+            if e.name in extra or len(cands) != 1:
+                raise
+            extra[e.name] = cands[0]
+    raise RuntimeError("too many missing names")
+
+
 def _independent_reading(classes, by_name, env, ids) -> list:
     """Statement-level reading: typing.get_type_hints + dataclasses.fields + __bases__, nothing from krrood."""
     import dataclasses
@@ -272,7 +293,7 @@ def _independent_reading(classes, by_name, env, ids) -> list:
     for c in nodes:
         if not dataclasses.is_dataclass(c):
             continue
-        hints = typing.get_type_hints(c, localns=dict(by_name))
+        hints = _plain_hints(c, by_name)
         for f in dataclasses.fields(c):
             if f.name.startswith("_"):
                 continue
@@ -369,6 +390,10 @@ def run_case(case: dict, case_dir: str) -> dict:
         return {"invalid": f"{type(e).__name__}: {e}"}
     by_name, env = {}, {}
     for d in case["decls"]:
+        if "module" in d:   # two modules that may both define a class of this __name__ (namesakes)
+            by_name[d["name"]] = vars(mods[d["module"]])[d.get("pyname", d["name"])]
+            _OBJNAME[by_name[d["name"]]] = d["name"]
+            continue
         for m in mods:
             scope = vars(m).get("CLASSES", vars(m))   # classes defined inside a function / nested in a class
             if d["name"] in scope and getattr(scope[d["name"]], "__module__", None) == m.__name__:
@@ -400,8 +425,8 @@ def run_case(case: dict, case_dir: str) -> dict:
     kinds = {}
     for w in cd.wrapped_classes:
         for wf in w.fields:
-            owner = next((k.__name__ for k in w.clazz.__mro__ if wf.field.name in k.__dict__.get("__annotations__", {})), "?")
-            kinds[f"{w.clazz.__name__}.{wf.field.name}"] = [owner, _pred_values(wf, env, ids)]
+            owner = next((_cname(k) for k in w.clazz.__mro__ if wf.field.name in k.__dict__.get("__annotations__", {})), "?")
+            kinds[f"{_cname(w.clazz)}.{wf.field.name}"] = [owner, _pred_values(wf, env, ids)]
     out["kinds"] = kinds
     objs = [cd]
     trace = []
@@ -490,7 +515,7 @@ HEADER = """From Coq Require Import List ZArith Bool PArith.
 From Krrood Require Import Base.Sx Diagram.Ty Diagram.FieldKindSpec Diagram.DiagramSpec Gen.FieldKind Diagram.Diagram Diagram.SubDiagram.
 Import ListNotations. Local Open Scope positive_scope.
 Definition F (n : positive) (pr : bool) (t : ty) (d df : bool) : fdecl := Build_fdecl n pr t d df.
-Definition D (n : positive) (k : dkind) (bs : list name) (fs : list fdecl) (hid : list name) : decl := Build_decl n k bs fs hid.
+Definition D (n : positive) (k : dkind) (bs : list name) (fs : list fdecl) (hid : list name) (py : name) : decl := Build_decl n k bs fs hid py.
 Definition S (t : nat) (b : bool) := OpSub t b.
 Definition Cp (t : nat) := OpCopy t.
 Definition Q (t : nat) (q : query) := OpQuery t q.
@@ -504,7 +529,7 @@ HEADER_SPEC = """From Coq Require Import List ZArith Bool PArith.
 From Krrood Require Import Base.Sx Diagram.Ty Diagram.FieldKindSpec Diagram.DiagramSpec.
 Import ListNotations. Local Open Scope positive_scope.
 Definition F (n : positive) (pr : bool) (t : ty) (d df : bool) : fdecl := Build_fdecl n pr t d df.
-Definition D (n : positive) (k : dkind) (bs : list name) (fs : list fdecl) (hid : list name) : decl := Build_decl n k bs fs hid.
+Definition D (n : positive) (k : dkind) (bs : list name) (fs : list fdecl) (hid : list name) (py : name) : decl := Build_decl n k bs fs hid py.
 Definition case_sx (p : prog) (cs : list name) (ops : list nat) : sx :=
   SL [SB (wf_prog p && wf_classes p cs); spec_sx p cs]."""
 
@@ -528,6 +553,7 @@ def make_ids(decls) -> Dict[str, int]:
             ids.setdefault(f["name"], len(ids) + 2)
     for d in decls:
         ids.setdefault(d["name"] + "__old", len(ids) + 2)
+        ids.setdefault(d.get("pyname", d["name"]), len(ids) + 2)
     return ids
 
 
@@ -585,7 +611,7 @@ def prog_coq(decls, ids) -> str:
             f"F {ids[f['name']]} {cb(f['name'].startswith('_'))} {ty_coq(tt(f['ann']), ids)} "
             f"{cb(f['default'] == 'value')} {cb(f['default'] == 'factory')}" for f in d["fields"])
         hid = "; ".join(str(ids[h]) for h in d.get("hidden", []))
-        ds.append(f"D {ids[d['name']]} {kind} [{'; '.join(str(ids[b]) for b in d['bases'])}] [{fs}] [{hid}]")
+        ds.append(f"D {ids[d['name']]} {kind} [{'; '.join(str(ids[b]) for b in d['bases'])}] [{fs}] [{hid}] {ids[d.get('pyname', d['name'])]}")
     return "[" + ";\n   ".join(ds) + "]"
 
 
@@ -721,6 +747,56 @@ def gen_ops(rng, classes) -> list:
                 ops.append(["query", t, ["outedges", c]])
             ops.append(["query", t, [rng.choice(["outnb", "innb"]), rng.choice(classes), rng.chance(0.5)]])
     return ops
+
+
+def gen_namesake(rng, stream: str) -> dict:
+    """Two modules that do not import each other, generated independently with the same naming scheme, so that classes of the
+    second module share their __name__ with classes of the first (model names <name>__m2).  Every module resolves its names
+    in its own globals.  'namesake_tc': the first module in addition refers to a class T1 of the second that it imports under
+    TYPE_CHECKING only, so that resolved_type needs its retry there."""
+    for _ in range(50):
+        a = gen_program(rng, "F")
+        b = gen_program(rng, "F")
+        if a["variant"] != b["variant"]:
+            b = dict(b, variant=a["variant"])
+        if stream == "namesake_tc" and any(len(d["bases"]) > 1 for d in a["decls"]):
+            continue
+        ren = {d["name"]: d["name"] + "__m2" for d in b["decls"]}
+        d2 = []
+        for d in b["decls"]:
+            d2.append(dict(d, name=ren[d["name"]], pyname=d["name"], module=1, bases=[ren[x] for x in d["bases"]],
+                           fields=[dict(f, name=f["name"] + "m", ann=ty_map_leaf(tt(f["ann"]), lambda l: (l[0], ren[l[1]]) if l[0] in ("C", "E", "F") else l))
+                                   for f in d["fields"]]))
+        d1 = [dict(d, module=0) for d in a["decls"]]
+        dcs1 = [d["name"] for d in d1 if d["kind"] == "dataclass"]
+        dcs2 = [d["name"] for d in d2 if d["kind"] == "dataclass"]
+        shared = [n for n in dcs1 if n + "__m2" in dcs2]
+        named = {_leaf(tt(f["ann"]))[1] for d in d1 + d2 for f in d["fields"] if _leaf(tt(f["ann"]))[0] == "F"}
+        if not any(n in named or n + "__m2" in named for n in shared):
+            continue   # some class that has a namesake must be named in a string
+        if stream == "namesake_tc":
+            d2.append({"name": "T1", "pyname": "T1", "module": 1, "kind": "dataclass", "bases": [], "kw_only": True,
+                       "fields": [{"name": "t0", "ann": ("B", 0), "default": "value"}]})
+            users = [d for d in d1 if d["kind"] == "dataclass" and any(_leaf(tt(f["ann"])) == ("F", n) for f in d["fields"] for n in shared)]
+            if not users:
+                continue
+            u = rng.choice(users)
+            u["fields"].append({"name": "q" + u["name"], "ann": rng.choice([("O", ("F", "T1")), ("F", "T1"), ("K", 0, ("F", "T1"))]), "default": "value"})
+            u["hidden"] = ["T1"]
+            dcs2.append("T1")
+        pool = dcs1 + dcs2
+        classes = rng.sample(pool, rng.randint(2, len(pool)))
+        for n in shared:   # both namesakes in the diagram, in random relative order
+            if rng.chance(0.7):
+                for x in (n, n + "__m2"):
+                    if x not in classes:
+                        classes.insert(rng.randint(0, len(classes)), x)
+        if stream == "namesake_tc" and u["name"] not in classes:
+            classes.insert(rng.randint(0, len(classes)), u["name"])
+        case = {"kind": "diagram", "stream": stream, "variant": a["variant"], "layout": "module", "decls": d1 + d2,
+                "classes": classes, "ops": gen_ops(rng, classes) if rng.chance(0.4) else []}
+        return finish_case(case)
+    raise RuntimeError("generator could not produce namesakes")
 
 
 def gen_program(rng, stream: str) -> dict:
@@ -872,7 +948,20 @@ def finish_case(case: dict) -> dict:
         case["rebuild"]["source"] = "\n".join(render_decls([d for d in case["decls"] if d["name"] in case["rebuild"]["redefine"]],
                                                             case["variant"])) + "\n"
     first = [d for d in case["decls"] if d.get("hidden")]
-    if first:
+    if any("module" in d for d in case["decls"]):
+        py = {d["name"]: d.get("pyname", d["name"]) for d in case["decls"]}
+
+        def rename(d):
+            return dict(d, name=py[d["name"]], bases=[py[b] for b in d["bases"]],
+                        fields=[dict(f, ann=ty_map_leaf(tt(f["ann"]), lambda l: (l[0], py[l[1]]) if l[0] in ("C", "E", "F", "FL") else l))
+                                for f in d["fields"]])
+        m1 = [rename(d) for d in case["decls"] if d["module"] == 0]
+        m2 = [rename(d) for d in case["decls"] if d["module"] == 1]
+        hidden = sorted({py[h] for d in case["decls"] if d["module"] == 0 for h in d.get("hidden", [])})
+        imp1 = ("if TYPE_CHECKING:\n    from c17_m2 import " + ", ".join(hidden)) if hidden else ""
+        case["modules"] = [{"name": "c17_m1", "source": render_module(m1, case["variant"], "c17_m1", imp1)},
+                           {"name": "c17_m2", "source": render_module(m2, case["variant"], "c17_m2")}]
+    elif first:
         # classes with hidden names live in c17_m1, which imports the others under TYPE_CHECKING only
         k = max(i for i, d in enumerate(case["decls"]) if d.get("hidden")) + 1
         m1, m2 = case["decls"][:k], case["decls"][k:]
@@ -973,18 +1062,22 @@ def run_worker_batch(cases: List[dict], tag: str, procs: int = 8) -> List[dict]:
 def snippet(case) -> str:
     local = case.get("layout", "module") != "module"
 
+    mod_of = {d["name"]: (d["module"], d.get("pyname", d["name"])) for d in case["decls"] if "module" in d}
+
     def cref(n):   # local classes must not become module-level names of the script (that would bypass the fallback)
+        if n in mod_of:
+            return f"c17_m{mod_of[n][0] + 1}.{mod_of[n][1]}"
         return f"CLASSES[{n!r}]" if local else n
     if len(case["modules"]) == 1:
         src = case["modules"][0]["source"]
     else:
         src = "import os, sys, tempfile\nd = tempfile.mkdtemp(); sys.path.insert(0, d)\n" + "".join(
             f"open(os.path.join(d, {m['name'] + '.py'!r}), 'w').write({m['source']!r})\n" for m in case["modules"]) + \
-            "from c17_m1 import *\nfrom c17_m2 import *\n"
+            ("import c17_m1, c17_m2\n" if mod_of else "from c17_m1 import *\nfrom c17_m2 import *\n")
     classes = ", ".join(cref(c) for c in case["classes"])
     lines = [src, "from krrood.class_diagrams.class_diagram import ClassDiagram, Association, Inheritance", "import copy",
              f"cd = ClassDiagram([{classes}])",
-             "snap = lambda d: sorted((type(e).__name__, e.source.clazz.__name__, e.target.clazz.__name__, getattr(getattr(e, 'field', None), 'name', None)) for e in d._dependency_graph.edges())",
+             "snap = lambda d: sorted((type(e).__name__, e.source.clazz.__module__ + '.' + e.source.clazz.__name__, e.target.clazz.__module__ + '.' + e.target.clazz.__name__, getattr(getattr(e, 'field', None), 'name', None)) for e in d._dependency_graph.edges())",
              "objs = [cd]; before = snap(cd); print([w.clazz.__name__ for w in cd.wrapped_classes], before)"]
     for o in case["ops"]:
         if o[0] == "sub":
@@ -1194,6 +1287,10 @@ def check_diagrams(rep, cases: List[dict], model_ok: bool, kf_classes: set, tag:
                 if cls == "other" or (cls == "K_union_none_first" and (cls not in kf_classes or (model_ok and impl != model))):
                     rep.violation(dict(base, kind="counterexample", part="edges", impl=impl, spec=pyspec, model=model,
                                        explanation="differs from the independent reading in a way no listed class explains"))
+        elif st == "namesake_tc" and reference is not None and impl != reference and model_ok and impl == model \
+                and "K_namesake_retry" in kf_classes:
+            # open finding C17-d, exactly as the faithful model predicts (the retry's namespace shadows a module's own class)
+            dist["kf_instances"]["K_namesake_retry"] = dist["kf_instances"].get("K_namesake_retry", 0) + 1
         elif reference is not None and impl != reference:
             rep.violation(dict(base, kind="counterexample", part="edges", impl=impl, spec=reference, model=model, in_F=in_f,
                                explanation="graph encoding: [0, [nodes in order, sorted edges [kind 0 inh/1 assoc, source, target, field]]] or [1, exception]; names are numbered by case['ids']",
@@ -1291,6 +1388,8 @@ def check_diagrams(rep, cases: List[dict], model_ok: bool, kf_classes: set, tag:
         svals = core.coq_values(RUN, HEADER_SPEC, [f"spec_kind_sx {ty_coq(rt, c['ids'])}" for rt, _, c, _ in items],
                                 chunk=400, tag=tag + "_kinds")
         for (rt, pv, c, fk), sv in zip(items, svals):
+            if stream_of(c) == "namesake_tc":
+                pv, sv = pv[:8], sv[:8]   # which namesake a name denotes there is the edges comparison (open finding C17-d)
             if pv != sv:
                 rep.violation({"kind": "counterexample", "part": "classification", "field": fk, "annotation": ty_py(rt, False),
                                "impl": dict(zip(PRED_NAMES[:9], pv)), "spec": dict(zip(PRED_NAMES[:9], sv)),
@@ -1349,7 +1448,7 @@ def replay_finding(rep, f, model_ok: bool) -> None:
                                "spec": impl, "python": snippet(case),
                                "explanation": "the witness of a repaired finding fails again (source changed, or the view no longer drops the inherited edge)"})
             return
-    if f.cls in ("K_union_none_first", "K_two_unresolved"):
+    if f.cls in ("K_union_none_first", "K_two_unresolved", "K_namesake_retry"):
         still = impl != pyspec and (not model_ok or impl == model)
         if f.kind == "open":
             if still:
@@ -1429,13 +1528,14 @@ def _run(tier: str, seed: int, replay=None) -> int:
     corpus = [(n, w) for n, w in load_corpus()]
     corpus_cases = [finish_case(dict(w["case"])) for n, w in corpus if not n.startswith("kf_")]
     rng = core.Rng(seed)
-    n_f, n_sh, n_ov, n_un, n_tc, n_lo, n_lm, n_rb = (150, 30, 20, 40, 40, 50, 15, 40) if tier == "quick" else (4000, 700, 400, 700, 700, 900, 250, 700)
+    n_f, n_sh, n_ov, n_un, n_tc, n_lo, n_lm, n_rb, n_ns, n_nt = ((150, 30, 20, 40, 40, 50, 15, 40, 40, 25) if tier == "quick"
+                                                                   else (4000, 700, 400, 700, 700, 900, 250, 700, 700, 400))
     cases = list(corpus_cases)
     for stream, n in (("F", n_f), ("shared", n_sh), ("override", n_ov), ("unsupported", n_un), ("typecheck", n_tc),
-                      ("local", n_lo), ("local_missing", n_lm), ("rebuild", n_rb)):
-        r = rng.fork({"F": 1, "shared": 2, "override": 3, "unsupported": 4, "typecheck": 5, "local": 6, "local_missing": 7, "rebuild": 8}[stream])
+                      ("local", n_lo), ("local_missing", n_lm), ("rebuild", n_rb), ("namesake", n_ns), ("namesake_tc", n_nt)):
+        r = rng.fork({"F": 1, "shared": 2, "override": 3, "unsupported": 4, "typecheck": 5, "local": 6, "local_missing": 7, "rebuild": 8, "namesake": 9, "namesake_tc": 10}[stream])
         for _ in range(n):
-            cases.append(gen_program(r, stream))
+            cases.append(gen_namesake(r, stream) if stream.startswith("namesake") else gen_program(r, stream))
     t1 = time.time()
     dist = check_diagrams(rep, cases, model_ok, kf_open)
     dist["wall_s"] = round(time.time() - t1, 1)
